@@ -105,7 +105,7 @@ func TestVerifC06(t *testing.T) {
 				ackW:      [3]int{1, 1, 1},
 				ticks:     []time.Duration{120 * c06ms}, timeout: true, probe: true, dropI: true, dropH: true,
 				recvBytes: []int{150, 1200}, recvPkt: true,
-				maxSends:  pick(th, 4, 5), maxTicks: 1, depth: pick(th, 6, 7)}
+				maxSends: pick(th, 4, 5), maxTicks: 1, depth: pick(th, 6, 7)}
 		}),
 		// client 0-RTT: Retry and 0-RTT rejection
 		c06Part("zero-rtt-retry", func(th bool) *c06Cfg {
